@@ -77,6 +77,13 @@ func loadedVarName(u *ssa.UnOp) string {
 		return x.Name()
 	case *ssa.Alloc:
 		return x.Comment
+	case *ssa.FieldAddr:
+		// a function value held in a struct field (l.onFlush(...)): the field's name
+		if pt, ok := x.X.Type().Underlying().(*types.Pointer); ok {
+			if st, ok := pt.Elem().Underlying().(*types.Struct); ok && x.Field < st.NumFields() {
+				return st.Field(x.Field).Name()
+			}
+		}
 	}
 	return ""
 }
